@@ -18,5 +18,5 @@ fuzz_target!(|data: &[u8]| {
         actors.push(common::actor(1, common::ops(&mut u, 14, &[STEAL, STEAL, STEAL, STEAL, BULK, BULK, EMPTY, YIELD])));
     }
     let sched = common::schedule(&mut u);
-    common::execute(Case { fam: "q_spmc".into(), workers: 1, pool: 1, feat: 0, cfg: vec![api, offset], actors, sched }, run_spmc);
+    common::execute(Case { fam: "q_spmc".into(), workers: 1, pool: 1, feat: 0, cfg: vec![api, offset], actors, sched, weak: 0 }, run_spmc);
 });
